@@ -112,8 +112,9 @@ inductive Val where
   | cls (c : Nat)
   /-- any other named object of the program (module, instance, ...) -/
   | obj (o : Nat)
-  /-- the value `handle()` of the handle `h` of the resource tree -/
-  | loaded (h : Nat)
+  /-- the value `handle()` of the handle `h` of the resource tree; `gen` tells the objects of
+  successive `load()` calls of one handle apart (`Handle.clear()` in between) -/
+  | loaded (h : Nat) (gen : Nat)
   | handle (h : Nat)
   /-- a sub-map of the resource tree -/
   | map (m : Nat)
@@ -257,6 +258,36 @@ def transformDesc (U : Universe) (d : Desc) : Except Exc Desc :=
     match mapE (transformEntity U) d.entities with
     | .error e => .error e
     | .ok es => .ok { processors := ps, entities := es }
+
+/-- handles that `root_map[...]` unwrapped while the transformers ran over the description, in
+order, up to the first exception (a handle that is already cached is listed too: `handle()` is
+called either way; whether `load()` runs is the handle's business, C12) -/
+def valLoads (U : Universe) : List Val → List Nat × Bool
+  | [] => ([], true)
+  | v :: r =>
+    match resourceMap U v with
+    | .error _ => ([], false)
+    | .ok x =>
+      let (l, c) := valLoads U r
+      ((match x with | .loaded h _ => [h] | _ => []) ++ l, c)
+
+def itemLoads (U : Universe) (d : Item) : List Nat × Bool :=
+  match typeT U d with
+  | .error _ => ([], false)
+  | .ok d1 =>
+    match objectT U d1 with
+    | .error _ => ([], false)
+    | .ok d2 => valLoads U (d2.args ++ d2.kwargs.map (·.2))
+
+def itemsLoads (U : Universe) : List Item → List Nat × Bool
+  | [] => ([], true)
+  | d :: ds =>
+    match itemLoads U d with
+    | (l, false) => (l, false)
+    | (l, true) => let (l', c) := itemsLoads U ds; (l ++ l', c)
+
+def descLoads (U : Universe) (d : Desc) : List Nat :=
+  (itemsLoads U (d.processors ++ d.entities.flatMap (·.2))).1
 
 /-! ### the world (logic/world.py) -/
 
@@ -584,7 +615,7 @@ def showVal : Val → List String
   | .json j => showJson j
   | .cls c => [s!"C{c}"]
   | .obj o => [s!"P{o}"]
-  | .loaded h => [s!"R{h}"]
+  | .loaded h g => [s!"R{h}.{g}"]
   | .handle h => [s!"H{h}"]
   | .map m => [s!"M{m}"]
   | .worldHandle => ["HW"]
@@ -648,6 +679,27 @@ inductive Node where
   | world
 deriving Inhabited
 
+/-- what happens between two loads of the same file against the same resource tree -/
+inductive Step where
+  /-- `Handle.clear()` of a resource handle -/
+  | clear (h : Nat)
+  /-- `parent_map[key] = <new handle h>` under the path of an existing handle -/
+  | replace (path : Str) (h : Nat)
+  /-- `world_handle.clear(); world_handle()` -/
+  | reload
+  /-- a second `WorldFromFileHandle` for the same file, stored in the same tree, is loaded -/
+  | load2
+deriving Inhabited
+
+/-- the resource tree as it is now: nodes, cached values, `load()` counters -/
+structure TreeSt where
+  tree : Dict Str Node := []
+  /-- generation of the value a handle has cached -/
+  cached : Dict Nat Nat := []
+  /-- number of `load()` calls of a handle so far -/
+  counts : Dict Nat Nat := []
+deriving Inhabited
+
 structure Parsed where
   classes : Dict Nat ClsInfo := []
   names : Dict Str Val := []
@@ -658,6 +710,7 @@ structure Parsed where
   procs : List Item := []
   ents : List (Option EntId × List Item) := []
   rx : List Str := []
+  steps : List Step := []
   nextLabel : Nat := 0
   bad : Bool := false
 deriving Inhabited
@@ -690,10 +743,18 @@ def typeVal (p : Parsed) (name : Str) : Option Val :=
 
 def parseLine (p : Parsed) (line : String) : Parsed :=
   match tokens line with
-  | ["cls", cid, kind, pr, ev] =>
+  | "cls" :: cid :: kind :: pr :: ev :: rest =>
+    -- `base=<cid>` (the class statement names an earlier class as its base) is for the
+    -- implementation side: nothing on the loader's path looks at subclasses (exact types only)
+    let baseOk := match rest with
+      | [] => true
+      | [b] => match (stripPfx "base=" b).bind String.toNat?, cid.toNat? with
+        | some b, some c => b < c
+        | _, _ => false
+      | _ => false
     match cid.toNat?, (stripPfx "prio=" pr).bind String.toInt?, (stripPfx "ev=" ev).bind parseEvents with
     | some c, some prio, some evs =>
-      if c < 2 ∨ (kind ≠ "proc" ∧ kind ≠ "comp") then { p with bad := true } else
+      if c < 2 ∨ (kind ≠ "proc" ∧ kind ≠ "comp") ∨ !baseOk then { p with bad := true } else
       { p with classes := Dict.set p.classes c { isProc := kind = "proc", events := evs, priority := prio } }
     | _, _, _ => { p with bad := true }
   | ["module", m] =>
@@ -750,6 +811,16 @@ def parseLine (p : Parsed) (line : String) : Parsed :=
         { p with ents := p.ents.dropLast ++ [(eid, cs ++ [mkItem p tv args kw])], nextLabel := p.nextLabel + 1 }
       | none => { p with bad := true }
     | _, _, _ => { p with bad := true }
+  | ["step", "clear", h] =>
+    match h.toNat? with
+    | some h => { p with steps := p.steps ++ [.clear h] }
+    | none => { p with bad := true }
+  | ["step", "replace", path, h] =>
+    match decTok path, h.toNat? with
+    | some path, some h => { p with steps := p.steps ++ [.replace path h] }
+    | _, _ => { p with bad := true }
+  | ["step", "reload"] => { p with steps := p.steps ++ [.reload] }
+  | ["step", "load2"] => { p with steps := p.steps ++ [.load2] }
   | ["rx", s] =>
     match s.toList with
     | 's' :: cs =>
@@ -769,16 +840,23 @@ def resolveDefault (moduleName name : Str) : Exc :=
   | h :: _ => if h = moduleName then "AttributeError" else "ModuleNotFoundError"
   | [] => "ValueError"
 
-def Parsed.universe (p : Parsed) : Universe where
+/-- the value `handle()` returns now: the cached one, else the one the next `load()` builds -/
+def TreeSt.genOf (t : TreeSt) (h : Nat) : Nat :=
+  match Dict.get? t.cached h with
+  | some g => g
+  | none => (Dict.get? t.counts h).getD 0 + 1
+
+/-- the parameters of one load: the program's names and the resource tree as it is now -/
+def Parsed.universeAt (p : Parsed) (t : TreeSt) : Universe where
   resolve := fun n => match Dict.get? p.names n with
     | some v => .ok v
     | none => .error (resolveDefault p.moduleName n)
-  getItem := fun path => match Dict.get? p.tree path with
-    | some (.handle h) => .ok (.loaded h)
+  getItem := fun path => match Dict.get? t.tree path with
+    | some (.handle h) => .ok (.loaded h (t.genOf h))
     | some (.map m) => .ok (.map m)
     | some .world => .error "RecursionError"
     | none => .error "KeyError"
-  getHandle := fun path => match Dict.get? p.tree path with
+  getHandle := fun path => match Dict.get? t.tree path with
     | some (.handle h) => .handle h
     | some (.map m) => .map m
     | some .world => .worldHandle
@@ -797,11 +875,12 @@ def isItemLabel : Label → Bool
   | .item _ => true
   | .dflt _ => false
 
-/-- handles whose `load()` ran: every `$res{..}` of the description that named a handle -/
-def loadedOf (td : Desc) : List Nat :=
-  let items := td.processors ++ td.entities.flatMap (·.2)
-  let vals := items.flatMap (fun i => i.args ++ i.kwargs.map (·.2))
-  sortNats ((vals.filterMap (fun v => match v with | .loaded h => some h | _ => none)).eraseDups)
+/-- `handle()` for every handle in `hs`: those without a cached value are loaded -/
+def TreeSt.call (t : TreeSt) (hs : List Nat) : TreeSt :=
+  hs.foldl (fun t h =>
+    if Dict.contains t.cached h then t else
+      let n := (Dict.get? t.counts h).getD 0 + 1
+      { t with counts := Dict.set t.counts h n, cached := Dict.set t.cached h n }) t
 
 /-- callbacks of the `on_world_load` delivery come out of a `set`: sorted -/
 def sortLabels (l : List Entry) : List Entry :=
@@ -819,35 +898,52 @@ def canonLog (l : List Entry) : List Entry :=
 def showEntry (e : Entry) : String :=
   s!"cb {showLabel e.recv} {String.ofList e.meth} {showCbArgs e.args}"
 
-def showWorld (p : Parsed) (w : World) : List String :=
+def showWorld (w : World) : List String :=
   let comps := w.entities.flatMap (fun e => e.2.map (·.2))
   [s!"enabled {showBool w.enabled}",
    "procs " ++ joinList (w.sorted.map showInstRef),
    "ents " ++ joinList (w.entities.map (fun e => showEntId e.1))] ++
   w.entities.map (fun e => s!"ent {showEntId e.1} " ++ joinList (e.2.map (fun c => showInstRef c.2))) ++
-  ((w.sorted ++ comps).filter (fun i => isItemLabel i.label)).map showInst ++
-  (match p.mode, transformDesc p.universe { processors := p.procs, entities := p.ents } with
-   | .file, .ok td => ["loaded " ++ showNats (loadedOf td)]
-   | _, _ => [])
+  ((w.sorted ++ comps).filter (fun i => isItemLabel i.label)).map showInst
 
-def runScenario (lines : List String) : List String :=
-  let p := lines.foldl parseLine {}
-  if p.bad then ["bad-op"] else
-  let U := p.universe
+/-- one load and the observation block it produces; the tree remembers what was loaded -/
+def runLoad (p : Parsed) (t : TreeSt) : List String × TreeSt :=
+  let U := p.universeAt t
   let d : Desc := { processors := p.procs, entities := p.ents }
-  let rxLines := p.rx.map showRx
   let res := match p.mode with
     | .file => loadFile U d
     | .dict => loadDict U d
     | .direct => populate U {} d
+  let called := if p.mode = .file then (descLoads U d).eraseDups else []
+  let t' := t.call called
   match res with
-  | .error e => rxLines ++ [s!"res raised {e}"]
+  | .error e => ([s!"res raised {e}"], t')
   | .ok w =>
     let pre := w.log.length
     let w2 := if p.mode = .direct then w else setEnabled U w true
-    rxLines ++ ["res ok"] ++ showWorld p w ++ [s!"pre {pre}"] ++
+    (["res ok"] ++ showWorld w ++
+      (if p.mode = .file then
+        ["loaded " ++ showNats (sortNats (called.filter (fun h => !Dict.contains t.cached h)))] else []) ++
+      [s!"pre {pre}"] ++
       (if p.mode = .direct then [] else
         [match w2.failed with | some e => s!"res-enable raised {e}" | none => "res-enable ok"]) ++
-      (canonLog w2.log).map showEntry
+      (canonLog w2.log).map showEntry, t')
+
+def runSteps (p : Parsed) : TreeSt → Nat → List Step → List String
+  | _, _, [] => []
+  | t, k, .clear h :: rest => runSteps p { t with cached := Dict.erase t.cached h } k rest
+  | t, k, .replace path h :: rest => runSteps p { t with tree := Dict.set t.tree path (.handle h) } k rest
+  | t, k, .reload :: rest =>
+    let (obs, t') := runLoad p t
+    s!"load {k} reload" :: obs ++ runSteps p t' (k + 1) rest
+  | t, k, .load2 :: rest =>
+    let (obs, t') := runLoad p t
+    s!"load {k} load2" :: obs ++ runSteps p t' (k + 1) rest
+
+def runScenario (lines : List String) : List String :=
+  let p := lines.foldl parseLine {}
+  if p.bad || (!p.steps.isEmpty && !(p.mode = .file && p.inTree)) then ["bad-op"] else
+  let (obs, t) := runLoad p { tree := p.tree }
+  p.rx.map showRx ++ obs ++ runSteps p t 2 p.steps
 
 end Desper.Loader
